@@ -70,6 +70,10 @@ def gen_jobs(ctx):
     rng = ctx.rng
     jobs = []
     quick = ctx.quick()
+    import glob
+    for fn in sorted(glob.glob(os.path.join(C.VERIF, "corpus", "C01", "*.json"))):      # minimised past failures first
+        c = json.load(open(fn))
+        jobs.append((c["spec"], c["opts"]))
     # boundary lattice: every kind x the framing sizes (thinned in the quick tier)
     sizes_small = [0, 1, 2, 7, 8, 9, 63, 64, 65, 127, 128, 129]
     sizes_big = [255, 256, 257, 8191, 8192, 8193]
